@@ -32,6 +32,22 @@ CONFIGS = [
     (13, "PickAPerm", lambda: PickAPerm()),
     (14, "get_algorithm(PARCONS, bound 2)", lambda: get_algorithm(Algorithm.PARCONS, {"bound_for_exact": 2})),
 ]
+
+
+def nondyadic_scheme(rng):
+    """penalties that binary floating point does not represent exactly (0.3, 0.1, 1/3, 0.7): scores are sums with rounding noise.  Only the
+    well-formedness of the answers is judged here, so the noise cannot matter to the verdict - it can matter to code that compares scores"""
+    p = rng.choice([0.3, 0.1, 0.7, 1.0 / 3, 0.6])
+    kind = rng.random()
+    if kind < 0.4:
+        return [[0.0, 1.0, p, 0.0, 1.0, p], [p, p, 0.0, p, p, 0.0]]           # unifying, p
+    if kind < 0.6:
+        return [[0.0, 1.0, p, 0.0, 0.0, 0.0], [p, p, 0.0, 0.0, 0.0, 0.0]]     # induced measure, p
+    if kind < 0.8:
+        return [[0.0, 1.0, p, 0.0, 1.0, 0.0], [p, p, 0.0, p, p, 0.0]]         # pseudo-distance, p
+    return [[x * p for x in v] for v in gen.UNIFYING]                         # a scaled scheme
+
+
 REFUSALS = ("ScoringSchemeNotHandledException", "InompleteRankingsIncompatibleWithScoringSchemeException", "IncompatibleArgumentsException")
 
 
@@ -80,9 +96,15 @@ class WellFormed(Suite):
                           "one": rng.random() < 0.5})
         for _ in range(20 if tier == "quick" else 250):      # a member of a hard component never ranked with the others (ParCons sub-problems)
             cases.append({"s": rng.choice([gen.UNIFYING, gen.UNIFYING, gen.UNIFYING_HALF]), "D": isolated_member_dataset(rng), "one": rng.random() < 0.5})
+        for _ in range(40 if tier == "quick" else 500):
+            D = named_dataset(rng, 5, 5) if rng.random() < 0.5 else gen.random_dataset(rng, 5, 6)
+            cases.append({"s": nondyadic_scheme(rng), "D": D, "one": rng.random() < 0.5, "nondyadic": True})
         for _ in range(160 if tier == "quick" else 2500):
             cases.append({"s": rng.choice([gen.UNIFYING, gen.UNIFYING, gen.INDUCED, gen.PSEUDO, gen.EXTENDED, gen.GENERIC]),
                           "D": named_dataset(rng), "one": rng.random() < 0.5})
+        for c in cases:
+            if rng.random() < 0.15:
+                c["seasoned"] = True      # the algorithm objects have served before the judged call (algos.seasoned)
         return cases
 
     def run(self, case):
@@ -92,7 +114,10 @@ class WellFormed(Suite):
         out = {"U": [e.value for e in ds.universe], "runs": [], "refused": 0}
         for cid, name, mkalg in CONFIGS:
             try:
-                cons = mkalg().compute_consensus_rankings(ds, sc, case["one"])
+                alg = mkalg()
+                if case.get("seasoned"):
+                    seasoned(alg, case["D"], case["s"])
+                cons = alg.compute_consensus_rankings(ds, sc, case["one"])
                 out["runs"].append({"id": cid, "cons": [rsnap(r) for r in cons.consensus_rankings]})
             except Exception as e:
                 if type(e).__name__ in REFUSALS:
@@ -118,6 +143,8 @@ class WellFormed(Suite):
         acc["refusals"] = acc.get("refusals", 0) + out["refused"]
         acc["exceptions"] = acc.get("exceptions", 0) + sum(1 for r in out["runs"] if "err" in r)
         acc["string_names"] = acc.get("string_names", 0) + int(any(isinstance(x, str) for x in out["U"]))
+        acc["non_dyadic_penalties"] = acc.get("non_dyadic_penalties", 0) + int(bool(case.get("nondyadic")))
+        acc["seasoned_algorithm_objects"] = acc.get("seasoned_algorithm_objects", 0) + int(bool(case.get("seasoned")))
         acc["one_element"] = acc.get("one_element", 0) + int(len(out["U"]) == 1)
         acc["several_rankings_returned"] = acc.get("several_rankings_returned", 0) + sum(1 for r in out["runs"] if len(r.get("cons", [])) > 1)
 
